@@ -154,10 +154,14 @@ inductive Misbehaves (cfg : Cfg) : Phase → Resp → Prop
   /-- more flag or 2.31 Continue on the acknowledgement of the final block -/
   | moreOnFinal {st cur r a} : r.block1 = some a → (sentBlock1 st cur).more = false →
       (a.more = true ∨ r.code = codeContinue) → Misbehaves cfg (.b1 st cur) r
-  /-- the response ending the upload carries a first Block2 block that is not number 0 or whose
+  /-- the response ending the upload carries a first Block2 block whose number is not 0 —
+  WHATEVER its more flag (a "last block" that is not the first is only the tail of a body) -/
+  | firstBlockNumber {st cur r b} : step cfg (.b1 st cur) r = completeBlock2 cfg cur r →
+      r.block2 = some b → b.num ≠ 0 → Misbehaves cfg (.b1 st cur) r
+  /-- the response ending the upload carries a first Block2 block with the more flag whose
   payload is not exactly one block -/
-  | firstBlockBad {st cur r b} : step cfg (.b1 st cur) r = completeBlock2 cfg cur r →
-      r.block2 = some b → b.more = true → (b.num ≠ 0 ∨ b.validFor r.payload.length = false) →
+  | firstBlockSize {st cur r b} : step cfg (.b1 st cur) r = completeBlock2 cfg cur r →
+      r.block2 = some b → b.more = true → b.validFor r.payload.length = false →
       Misbehaves cfg (.b1 st cur) r
   /-- payload length ≠ block size on a non-final block (or longer than a block on the last) -/
   | badSize {t asm cur r b} : r.block2 = some b → b.validFor r.payload.length = false →
@@ -165,6 +169,10 @@ inductive Misbehaves (cfg : Cfg) : Phase → Resp → Prop
   /-- the block does not start where the bytes received so far end: gap, repetition, wrong number,
   number not rescaled after a size change -/
   | outOfSequence {t asm cur r b} : r.block2 = some b → b.start ≠ asm.payload.length →
+      Misbehaves cfg (.b2 t asm cur) r
+  /-- the response code differs from the first block's in mid-transfer (e.g. an error response
+  that carries a Block2 option) -/
+  | codeChanged {t asm cur r b} : r.block2 = some b → r.code ≠ asm.code →
       Misbehaves cfg (.b2 t asm cur) r
   /-- the representation changed: ETag differs from the first block's -/
   | etagChanged {t asm cur r b} : r.block2 = some b → r.etag ≠ asm.etag →
@@ -184,21 +192,38 @@ theorem step_misbehaves {cfg : Cfg} {ph : Phase} {r : Resp} (h : Misbehaves cfg 
         rcases hm with hm | hm <;> simp [hm]
       rw [if_neg hn]
       simp [hs, this]
-  | @firstBlockBad st cur r b hst hb hm hbad =>
+  | @firstBlockNumber st cur r b hst hb hn =>
     rw [hst, completeBlock2_some hb]
-    rcases hbad with hbad | hbad
-    · exact ⟨.unexpectedBlock2, by simp [hm, hbad]⟩
-    · by_cases hn : b.num ≠ 0
+    have : b.start ≠ 0 := fun h => hn (BlockOpt.start_eq_zero.mp h)
+    exact ⟨.unexpectedBlock2, by rw [if_pos this]⟩
+  | @firstBlockSize st cur r b hst hb hm hbad =>
+    rw [hst, completeBlock2_some hb]
+    by_cases hs : b.start ≠ 0
+    · exact ⟨.unexpectedBlock2, by rw [if_pos hs]⟩
+    · rw [if_neg hs]
+      by_cases hn : b.num ≠ 0
       · exact ⟨.unexpectedBlock2, by simp [hm, hn]⟩
       · exact ⟨.unexpectedBlock2, by simp [hm, hbad]⟩
-  | badSize hb hv => exact ⟨.unexpectedBlock2, by rw [step_b2_some hb]; simp [hv]⟩
+  | @codeChanged t asm cur r b hb hc =>
+    exact ⟨.unexpectedBlock2, by rw [step_b2_some hb, if_pos hc]⟩
+  | @badSize t asm cur r b hb hv =>
+    rw [step_b2_some hb]
+    by_cases hc : r.code ≠ asm.code
+    · exact ⟨.unexpectedBlock2, by rw [if_pos hc]⟩
+    · exact ⟨.unexpectedBlock2, by rw [if_neg hc]; simp [hv]⟩
   | @outOfSequence t asm cur r b hb hs =>
     rw [step_b2_some hb]
+    by_cases hc : r.code ≠ asm.code
+    · exact ⟨.unexpectedBlock2, by rw [if_pos hc]⟩
+    rw [if_neg hc]
     by_cases hv : b.validFor r.payload.length = true
     · exact ⟨.notImplemented, by simp [hv, hs]⟩
     · exact ⟨.unexpectedBlock2, by simp [hv]⟩
   | @etagChanged t asm cur r b hb he =>
     rw [step_b2_some hb]
+    by_cases hc : r.code ≠ asm.code
+    · exact ⟨.unexpectedBlock2, by rw [if_pos hc]⟩
+    rw [if_neg hc]
     by_cases hv : b.validFor r.payload.length = true
     · by_cases hs : b.start ≠ asm.payload.length
       · exact ⟨.notImplemented, by simp [hv, hs]⟩
@@ -217,9 +242,11 @@ theorem C05_error_is_final (cfg : Cfg) (pre : List Resp) (r : Resp) (suf : List 
 
 /-- **C05 (misbehaviour ⇒ error, never a body).** After ANY history of responses, a response that
 acknowledges the wrong block number, sets the more flag / 2.31 on the final acknowledgement,
+starts the download with a block whose number is not 0 (with or without the more flag),
 carries a payload whose length does not fit its Block2 option, does not continue where the body
-received so far ends (gap, repetition, unscaled number), or carries a different ETag, ends the
-request with an error — whatever else the server sends before or afterwards. -/
+received so far ends (gap, repetition, unscaled number), carries a different response code than
+the first block, or carries a different ETag, ends the request with an error — whatever else the
+server sends before or afterwards. -/
 theorem C05_misbehaviour_is_error (cfg : Cfg) (pre : List Resp) (r : Resp) (suf : List Resp)
     (h : Misbehaves cfg (phaseAfter cfg (start cfg) pre) r) :
     ∃ e, (runClient cfg (pre ++ r :: suf)).2 = .error e := by
@@ -227,17 +254,20 @@ theorem C05_misbehaviour_is_error (cfg : Cfg) (pre : List Resp) (r : Resp) (suf 
   exact ⟨e, C05_error_is_final cfg pre r suf _ he⟩
 
 /-- **C05 (a returned body is the server's body).** Let the upload end after the history `pre`
-with the response `first`, whose Block2 option is block 0 of `body`, truthfully labelled. Let the
-later responses be arbitrary as long as each has a Block2 option and — if it carries the ETag
-of the first block — is a truthfully labelled slice of `body` (ANY block number, ANY size; responses
-with another ETag are completely arbitrary). Then the request cannot return anything but
+with the response `first`, which is a truthfully labelled slice of `body` — of ANY block number:
+a first block that does not start at offset 0 is refused, with or without the more flag. Let the
+later responses be arbitrary as long as each has a Block2 option and — if it carries BOTH the
+ETag and the response code of the first block — is a truthfully labelled slice of `body` (ANY block
+number, ANY size; responses with another ETag or another code, e.g. error responses with a
+diagnostic payload, are completely arbitrary). Then the request cannot return anything but
 `body` (with the first response's code and ETag): no truncated, duplicated or mixed body. -/
 theorem C05_ok_is_server_body (cfg : Cfg) (pre : List Resp) (first : Resp) (rs : List Resp)
     (body : Bytes) (st : B1State) (cur : Req)
     (hph : phaseAfter cfg (start cfg) pre = .b1 st cur)
     (hends : step cfg (.b1 st cur) first = completeBlock2 cfg cur first)
-    (h0 : TruthfulFirst body first)
-    (H : ∀ r ∈ rs, r.block2.isSome = true ∧ (r.etag = first.etag → Truthful body r))
+    (h0 : Truthful body first)
+    (H : ∀ r ∈ rs, r.block2.isSome = true ∧
+      (r.etag = first.etag → r.code = first.code → Truthful body r))
     (o : Body) (hok : (runClient cfg (pre ++ first :: rs)).2 = .ok o) :
     o.payload = body ∧ o.etag = first.etag ∧ o.code = first.code := by
   unfold runClient at hok
@@ -280,8 +310,8 @@ example :
        (none, some ⟨4, false, 0⟩)] := by decide
 
 /-- the hypotheses of `C05_ok_is_server_body` are satisfiable: an honest two-block download -/
-example : TruthfulFirst (List.range 20) ⟨69, none, some ⟨0, true, 0⟩, some [9], List.range 16⟩ :=
-  ⟨⟨0, true, 0⟩, rfl, rfl, by decide, by decide⟩
+example : Truthful (List.range 20) ⟨69, none, some ⟨0, true, 0⟩, some [9], List.range 16⟩ :=
+  ⟨⟨0, true, 0⟩, rfl, by decide, by decide⟩
 example : Truthful (List.range 20) ⟨69, none, some ⟨1, false, 0⟩, some [9], [16, 17, 18, 19]⟩ :=
   ⟨⟨1, false, 0⟩, rfl, by decide, by decide⟩
 example :
@@ -320,6 +350,20 @@ example :
 example :
     (runClient { payload := List.range 40, szx0 := 0, maxPayload := 1124 }
       [⟨95, some ⟨1, true, 0⟩, none, none, []⟩]).2 = .error .unexpectedBlock1 := by decide
+
+/-- the two inputs fixed in the second round: a first answer labelled "block 3, last" (truthfully:
+it IS the tail of the body) is an error, not a body; a 4.04 carrying a Block2 option in
+mid-transfer is not glued onto the 2.05 body -/
+example : Truthful (List.range 60) ⟨69, none, some ⟨3, false, 0⟩, none, (List.range 60).drop 48⟩ :=
+  ⟨⟨3, false, 0⟩, rfl, by decide, by decide⟩
+example :
+    (runClient { payload := [], szx0 := 6, maxPayload := 1124 }
+      [⟨69, none, some ⟨3, false, 0⟩, none, (List.range 60).drop 48⟩]).2
+    = .error .unexpectedBlock2 := by decide
+example :
+    (runClient { payload := [], szx0 := 6, maxPayload := 1124 }
+      [⟨69, none, some ⟨0, true, 0⟩, none, List.range 16⟩,
+       ⟨132, none, some ⟨1, false, 0⟩, none, [105, 116]⟩]).2 = .error .unexpectedBlock2 := by decide
 
 /-- a Block1 option in the answer to an unfragmented request: size hint in a 4.13 is passed on,
 a more flag is an error (the code path fixed in aiocoap) -/
